@@ -246,7 +246,8 @@ void run_small_vector(Ctx &c) {
 			}
 			bool inl = (char *)slot[s]->data() >= (char *)slot[s] && (char *)slot[s]->data() < (char *)(slot[s] + 1);
 			if(!inl) was_heap[s] = true;
-			if(inl && ref[s].size() > N) c.fail("C13", "small_vector[%d] reports inline storage with %zu > N elements", s, ref[s].size());
+			// (how many elements an implementation keeps inline beyond N is its business; what is inline must lie inside the object)
+			if(inl && (char *)(slot[s]->data() + ref[s].size()) > (char *)(slot[s] + 1)) c.fail("C13", "small_vector[%d]: %zu elements start inside the object but do not fit into it", s, ref[s].size());
 		}
 		c.check_san("C13");
 		VTRACK_POLL(c);
